@@ -179,6 +179,13 @@ impl<S: Clone + Send + Sync + 'static, R: Send + 'static> Network for SimNet<S, 
     }
 }
 
+/// Extra networks of a Byzantine player for hostile repair / transaction traffic.
+pub struct HostileNets {
+    pub req: SimNet<RepairRequest, RepairResponse>,
+    pub resp: SimNet<RepairResponse, RepairRequest>,
+    pub tx: SimNet<Transaction, Transaction>,
+}
+
 pub struct SimConfig {
     pub stakes: Vec<u64>,
     pub byz: Vec<usize>,
@@ -212,7 +219,25 @@ fn vote_json(names: &Mutex<HashMap<Vec<u8>, String>>, v: &Vote) -> Value {
         Vote::SkipFallback(_) => ("sf", "-".to_string()),
         Vote::Final(_) => ("final", "-".to_string()),
     };
-    json!({"k": k, "s": v.slot().inner(), "h": h, "v": v.signer().inner()})
+    // TLC integers are 32-bit: far-future slots / signer indices of hostile votes are saturated
+    json!({"k": k, "s": v.slot().inner().min(1 << 30), "h": h, "v": v.signer().inner().min(1 << 20)})
+}
+
+/// Every panic anywhere in the process while a simulation runs (tasks of the nodes included).
+pub static PANICS: Mutex<Vec<String>> = Mutex::new(Vec::new());
+
+pub fn install_panic_recorder() {
+    std::panic::set_hook(Box::new(|info| {
+        let msg = if let Some(s) = info.payload().downcast_ref::<&str>() {
+            (*s).to_string()
+        } else if let Some(s) = info.payload().downcast_ref::<String>() {
+            s.clone()
+        } else {
+            "panic".to_string()
+        };
+        let loc = info.location().map(|l| format!("{}:{}", l.file(), l.line())).unwrap_or_default();
+        PANICS.lock().unwrap().push(format!("{loc}: {msg}"));
+    }));
 }
 
 /// Runs one simulation; returns (events, summary).
@@ -224,6 +249,8 @@ pub fn run(cfg: &SimConfig) -> anyhow::Result<(Vec<Value>, Value)> {
         .rng_seed(tokio::runtime::RngSeed::from_bytes(&cfg.seed.to_le_bytes()))
         .build()?;
     let _ = drain();
+    install_panic_recorder();
+    PANICS.lock().unwrap().clear();
     let names: Arc<Mutex<HashMap<Vec<u8>, String>>> = Arc::new(Mutex::new(HashMap::new()));
     let panics: Arc<Mutex<Vec<String>>> = Arc::new(Mutex::new(Vec::new()));
 
@@ -294,7 +321,7 @@ pub fn run(cfg: &SimConfig) -> anyhow::Result<(Vec<Value>, Value)> {
                     let mut signers: Vec<u64> = c.signers().map(|v| v.inner()).collect();
                     signers.sort_unstable();
                     signers.dedup();
-                    json!({"e": "CertSent", "from": from, "c": {"k": k, "s": c.slot().inner(), "h": h},
+                    json!({"e": "CertSent", "from": from, "c": {"k": k, "s": c.slot().inner().min(1 << 30), "h": h},
                            "signers": signers, "t": hub2.now_ms()})
                 }
             };
@@ -313,7 +340,12 @@ pub fn run(cfg: &SimConfig) -> anyhow::Result<(Vec<Value>, Value)> {
                     SimNet::join(&hub, i, &bus_a2a, &bus_a2a, v.all2all_address, Some(tap.clone()));
                 let snet: SimNet<Shred, Shred> =
                     SimNet::join(&hub, i, &bus_shred, &bus_shred, v.disseminator_address, None);
-                byz_inboxes.push((i, net, snet));
+                let hostile = HostileNets {
+                    req: SimNet::join(&hub, i, &bus_req, &bus_resp, v.repair_requester_address, None),
+                    resp: SimNet::join(&hub, i, &bus_resp, &bus_req, v.repair_responder_address, None),
+                    tx: SimNet::join(&hub, i, &bus_tx, &bus_tx, localhost_ip_sockaddr(1000 + (i as u16) * 10 + 4), None),
+                };
+                byz_inboxes.push((i, net, snet, hostile));
                 pools.push(None);
                 continue;
             }
@@ -352,7 +384,7 @@ pub fn run(cfg: &SimConfig) -> anyhow::Result<(Vec<Value>, Value)> {
         }
 
         // Byzantine players
-        for (i, net, snet) in byz_inboxes {
+        for (i, net, snet, hostile) in byz_inboxes {
             let mode = cfg.byz_mode.clone();
             let sk = voting_sks[i].clone();
             let leader_sk = sks[i].clone();
@@ -364,6 +396,14 @@ pub fn run(cfg: &SimConfig) -> anyhow::Result<(Vec<Value>, Value)> {
                 .collect();
             let nval = n as u64;
             let names3 = names.clone();
+            // (requester address, responder address, tx address) of every other validator
+            let hostile_targets: Vec<(SocketAddr, SocketAddr, SocketAddr)> = validators
+                .iter()
+                .enumerate()
+                .filter(|(j, _)| *j != i)
+                .map(|(j, v)| (v.repair_requester_address, v.repair_responder_address,
+                               localhost_ip_sockaddr(1000 + (j as u16) * 10 + 4)))
+                .collect();
             let addrs: Vec<SocketAddr> = validators.iter().map(|v| v.all2all_address).collect();
             let seed = cfg.seed;
             tokio::spawn(async move {
@@ -374,12 +414,60 @@ pub fn run(cfg: &SimConfig) -> anyhow::Result<(Vec<Value>, Value)> {
                 let mut best_parent: (Slot, alpenglow::crypto::merkle::BlockHash) =
                     (Slot::genesis(), alpenglow::crypto::merkle::GENESIS_BLOCK_HASH);
                 let mut served: HashSet<u64> = HashSet::new();
+                let mut hostile_done: HashSet<u64> = HashSet::new();
                 loop {
                     let Ok(m) = net.receive().await else { break };
                     if mode == "silent" {
                         continue;
                     }
-                    if mode == "equivocate" {
+                    if mode == "hostile" {
+                        // (a) hostile messages on every interface, a burst per observed slot
+                        let slot_seen = match &m {
+                            ConsensusMessage::Vote(v) => v.slot(),
+                            ConsensusMessage::Cert(c) => c.slot(),
+                        };
+                        if hostile_done.insert(slot_seen.inner()) {
+                            let all_a2a: Vec<SocketAddr> = addrs.clone();
+                            let junk: alpenglow::crypto::merkle::BlockHash =
+                                alpenglow::crypto::hash(b"junk").into();
+                            let far = Slot::new(u64::MAX - 1);
+                            let hostile_votes = vec![
+                                Vote::new_notar(far, junk.clone(), &sk, idx),
+                                Vote::new_final(Slot::new(1_000_000_000_000), &sk, idx),
+                                Vote::new_skip(slot_seen, &sk, ValidatorIndex::new(nval + 7)),
+                                Vote::new_skip(slot_seen, &sk, ValidatorIndex::new(0)),
+                                Vote::new_notar(Slot::genesis(), junk.clone(), &sk, idx),
+                            ];
+                            for a in &all_a2a {
+                                for v in &hostile_votes {
+                                    let _ = net.send(&ConsensusMessage::Vote(v.clone()), *a).await;
+                                }
+                            }
+                            record(VerifEvent::Harness(json!({"e": "Hostile", "from": i, "s": slot_seen.inner(),
+                                                             "what": "votes+repair+tx"}).to_string()));
+                            use alpenglow::repair::RepairRequestType;
+                            let bid = (slot_seen, junk.clone());
+                            let idx0: alpenglow::types::SliceIndex = serde_json::from_str("0").unwrap();
+                            let idx_max: alpenglow::types::SliceIndex = serde_json::from_str("1023").unwrap();
+                            for (j, v) in hostile_targets.iter().enumerate() {
+                                let _ = hostile.resp.send(&RepairResponse::Nack(RepairRequestType::LastSliceRoot(bid.clone())), v.0).await;
+                                let _ = hostile.resp.send(&RepairResponse::LastSliceRoot(
+                                    RepairRequestType::LastSliceRoot(best_parent.clone()), idx_max,
+                                    alpenglow::crypto::hash(b"root").into(), Vec::new().into()), v.0).await;
+                                let _ = hostile.req.send(&RepairRequest::verif_new(idx, RepairRequestType::LastSliceRoot(bid.clone())), v.1).await;
+                                let _ = hostile.req.send(&RepairRequest::verif_new(ValidatorIndex::new(nval + 3),
+                                    RepairRequestType::SliceRoot(best_parent.clone(), idx_max)), v.1).await;
+                                let _ = hostile.req.send(&RepairRequest::verif_new(idx,
+                                    RepairRequestType::SliceRoot(best_parent.clone(), idx0)), v.1).await;
+                                let _ = hostile.tx.send(&Transaction(vec![7u8; 600 + 100 * (j % 8)]), v.2).await;
+                                // enough oversized transactions to overrun one slice buffer
+                                for _ in 0..30 {
+                                    let _ = hostile.tx.send(&Transaction(vec![9u8; 1400]), v.2).await;
+                                }
+                            }
+                        }
+                    }
+                    if mode == "equivocate" || mode == "hostile" {
                         // track certified blocks
                         if let ConsensusMessage::Cert(c) = &m
                             && let Some(h) = c.block_hash()
@@ -411,6 +499,41 @@ pub fn run(cfg: &SimConfig) -> anyhow::Result<(Vec<Value>, Value)> {
                                         data,
                                     }
                                 };
+                                if mode == "hostile" {
+                                    // (b) validly signed but malformed blocks, one class per slot
+                                    let junkp: alpenglow::crypto::merkle::BlockHash =
+                                        alpenglow::crypto::hash(b"unknown-parent").into();
+                                    let class = s % 6;
+                                    let mut slices = Vec::new();
+                                    let mut base = mk(3, &par_x);
+                                    match class {
+                                        0 => base.parent = Some((Slot::new(s + 8), junkp.clone())),
+                                        1 => base.parent = Some((Slot::new(s), junkp.clone())),
+                                        2 => base.data = vec![0xFF; 300],
+                                        3 => base.parent = None,
+                                        4 => {
+                                            let mut second = mk(4, &par_x);
+                                            second.slice_index = serde_json::from_str("1").unwrap();
+                                            second.parent = None;
+                                            slices.push(second);
+                                        }
+                                        _ => base.parent = Some((Slot::new(s.saturating_sub(2)), junkp.clone())),
+                                    }
+                                    slices.insert(0, base);
+                                    record(VerifEvent::Harness(json!({"e": "Hostile", "from": i, "s": s,
+                                        "what": format!("block class {class}")}).to_string()));
+                                    for sl in &slices {
+                                        if let Ok(shs) = shredder.shred(sl, &leader_sk) {
+                                            for (_, a) in &shred_addrs {
+                                                for sh in shs.iter() {
+                                                    let _ = snet.send(sh.as_shred(), *a).await;
+                                                }
+                                            }
+                                        }
+                                    }
+                                    tokio::time::sleep(Duration::from_millis(120)).await;
+                                    continue;
+                                }
                                 let sx = shredder.shred(&mk(1, &par_x), &leader_sk).expect("shred");
                                 let sy = shredder.shred(&mk(2, &par_y), &leader_sk).expect("shred");
                                 let hx: alpenglow::crypto::merkle::BlockHash =
@@ -533,6 +656,7 @@ pub fn run(cfg: &SimConfig) -> anyhow::Result<(Vec<Value>, Value)> {
     }
     let mut summary = result;
     summary["node_errors"] = json!(panics.lock().unwrap().clone());
+    summary["panics"] = json!(PANICS.lock().unwrap().clone());
     summary["events"] = json!(events.len());
     let _ = Slot::new(0);
     Ok((events, summary))
